@@ -19,42 +19,39 @@ theorem succ_mod' (a b : Nat) (hb : 0 < b) :
 
 /-- `l = x[-1] :: older`, newest first; the entry `l[m]` was appended at global step `s - m`
 (the input `x[0]` is step 0); the newest `links` adjacent pairs are genuine member applications. -/
-def Linked (c : Nat → X → Out X) (s : Nat) (l : List X) (links : Nat) : Prop :=
-  ∀ m, m < links → ∀ a b, l[m]? = some b → l[m + 1]? = some a → c (s - 1 - m) a = .ret b
+def Linked (c : Nat → X → Option X) (n s : Nat) (l : List X) (links : Nat) : Prop :=
+  ∀ m, m < links → ∀ a b, l[m]? = some b → l[m + 1]? = some a → c ((s - 1 - m) % n) a = some b
 
-theorem Linked.zero (c : Nat → X → Out X) (s : Nat) (l : List X) : Linked c s l 0 := by
+theorem Linked.zero (c : Nat → X → Option X) (n s : Nat) (l : List X) : Linked c n s l 0 := by
   intro m hm; omega
 
-theorem applyO_ret {o : Out X} {src last : X} {ye : X × Bool} (h : applyO o src last = some ye)
-    (h2 : ye.2 = false) : o = .ret ye.1 := by
-  unfold applyO at h
+theorem applyM_some {c : X → Option X} {x : X} (h : (applyM c x).2 = false) :
+    c x = some (applyM c x).1 := by
+  unfold applyM at *
   split at h <;> simp_all
-  all_goals (subst h; simp_all)
 
-theorem applyM_ret {o : Out X} {x : X} {ye : X × Bool} (h : applyM o x = some ye)
-    (h2 : ye.2 = false) : o = .ret ye.1 := applyO_ret h h2
-
-theorem Linked.push {c : Nat → X → Out X} {s : Nat} {top : X} {h : List X} {links : Nat} {ye : X × Bool}
-    (hl : Linked c s (top :: h) links) (hy : applyM (c s top) top = some ye) :
-    Linked c (s + 1) (ye.1 :: top :: h) (if ye.2 = true then 0 else links + 1) := by
+theorem Linked.push {c : Nat → X → Option X} {n s : Nat} {top : X} {h : List X} {links : Nat}
+    (hl : Linked c n s (top :: h) links) :
+    Linked c n (s + 1) ((applyM (c (s % n)) top).1 :: top :: h)
+      (if (applyM (c (s % n)) top).2 = true then 0 else links + 1) := by
   split
-  · exact Linked.zero _ _ _
+  · exact Linked.zero _ _ _ _
   · rename_i he
-    have he' : ye.2 = false := by simpa using he
+    have he' : (applyM (c (s % n)) top).2 = false := by simpa using he
     intro m hm a b hb ha
     cases m with
     | zero =>
       simp at hb ha
       subst hb ha
-      simpa using applyM_ret hy he'
+      simpa using applyM_some he'
     | succ m =>
       simp at hb ha
       have := hl m (by omega) a b hb (by simpa using ha)
       have e : s + 1 - 1 - (m + 1) = s - 1 - m := by omega
       rw [e]; exact this
 
-theorem Linked.take {c : Nat → X → Out X} {s : Nat} {l : List X} {links : Nat} (k : Nat)
-    (hl : Linked c s l links) : Linked c s (l.take k) links := by
+theorem Linked.take {c : Nat → X → Option X} {n s : Nat} {l : List X} {links : Nat} (k : Nat)
+    (hl : Linked c n s l links) : Linked c n s (l.take k) links := by
   intro m hm a b hb ha
   rw [List.getElem?_take] at hb ha
   split at hb
@@ -63,8 +60,8 @@ theorem Linked.take {c : Nat → X → Out X} {s : Nat} {l : List X} {links : Na
     · simp at ha
   · simp at hb
 
-theorem Linked.dropOld_tail {c : Nat → X → Out X} {n s j : Nat} {y : X} {l : List X} {links : Nat}
-    (hl : Linked c s (y :: l) links) : Linked c s (y :: dropOld n j l) links := by
+theorem Linked.dropOld_tail {c : Nat → X → Option X} {n s j : Nat} {y : X} {l : List X} {links : Nat}
+    (hl : Linked c n s (y :: l) links) : Linked c n s (y :: dropOld n j l) links := by
   unfold dropOld
   split
   · have := Linked.take (k := (l.length - n) + 1) hl
